@@ -28,6 +28,7 @@ ACLS = ["A_a", "A_b"]
 WILD_DECLS = "".join('backend %s { .host = "127.0.0.%d"; .port = "80"; }\n' % (b, i + 1) for i, b in enumerate(BACKENDS)) + \
     "".join('acl %s { "10.%d.0.0"/16; }\n' % (a, i) for i, a in enumerate(ACLS))
 FIELDS = ["k1", "k2"]
+STATES = ["lookup", "pass", "deliver"]
 SCOPES = {
     "recv": {"globals": [("req.max_stale_if_error", "R"), ("req.max_stale_while_revalidate", "R"),
                          ("req.hash_always_miss", "B"), ("req.hash_ignore_busy", "B")],
@@ -74,6 +75,8 @@ class Prog:
             return "%s.http.%s" % (self.objs[n[1]], HDRS[n[2]])
         if n[0] == "r":
             return "re.group.%d" % n[1]
+        if n[0] == "f":
+            return "%s.http.%s:k%d" % (self.objs[n[1]], HDRS[n[2]], n[3])
         return n[1]
 
     def pool(self):
@@ -81,6 +84,7 @@ class Prog:
         out = [g for g, _ in self.globals]
         out += ["%s.http.%s" % (o, h) for o in self.objs for h in HDRS]
         out += ["re.group.%d" % j for j in range(NGROUPS)]
+        out += ["%s.http.%s:k%d" % (o, h, k) for o in self.objs for h in HDRS[:2] for k in (1, 2)]
         return out + list(self.extra_pool)
 
     # ---------------------------------------------------------------- VCL text
@@ -168,6 +172,28 @@ class Prog:
                 return
             elif k == "rawstmt":
                 ln = emit(s[1], ind)
+            elif k == "nop":
+                ln = emit(s[1] + ";", ind)          # must stay the last statement of its case: no snapshot logs after it
+                linemap[ln] = ("stmt", s, frame)
+                return
+            elif k == "retstate":
+                ln = emit("return (%s);" % STATES[s[1]], ind)
+                linemap[ln] = ("stmt", s, frame)
+                return
+            elif k == "switch":
+                ln = emit("switch (%s) {" % self.etext(s[1]), ind)
+                linemap[ln] = ("stmt", s, frame)
+                for t, ft, b in s[3]:
+                    if t is None:
+                        emit("default:", ind)
+                    elif t[0] == "str":
+                        emit('case "%s":' % t[1].decode(), ind)
+                    else:
+                        emit('case ~ "%s":' % self.pat_text(t[1]), ind)
+                    block(b, ind + 1, frame, visible)
+                emit("}", ind)
+                snaplogs(ind, visible)
+                return
             elif k == "if":
                 ln = emit("if (%s) {" % self.etext(s[1]), ind)
                 linemap[ln] = ("stmt", s, frame)
@@ -254,6 +280,19 @@ class Prog:
             return "(call %d%s)" % (s[1], "".join(" " + self.esexp(a) for a in s[2]))
         if k == "ret":
             return "(ret %s)" % ("_" if s[1] is None else self.esexp(s[1]))
+        if k == "nop":
+            return "(nop)"
+        if k == "retstate":
+            return "(retstate %d)" % s[1]
+        if k == "switch":
+            def tsx(t):
+                if t is None:
+                    return "_"
+                if t[0] == "str":
+                    return '(str "%s")' % t[1].hex()
+                return "(re %s)" % ('(pre "%s")' % t[1][1].hex() if t[1][0] == "pre" else "(spl %d)" % t[1][1])
+            return "(switch %s %s%s)" % (self.esexp(s[1]), "_" if s[2] is None else str(s[2]),
+                                         "".join(" (case %s %d (%s))" % (tsx(t), int(ft), " ".join(map(self.ssexp, b))) for t, ft, b in s[3]))
         if k == "if":
             return "(if %s (%s) (%s) %s)" % (
                 self.esexp(s[1]), " ".join(map(self.ssexp, s[2])),
@@ -340,6 +379,8 @@ class StoreGen:
                 out += [("h", o, h) for o in range(len(self.p.objs)) for h in range(len(HDRS))]
             if "r" in kinds:
                 out += [("r", j) for j in range(NGROUPS)]
+            if "h" in kinds:
+                out += [("f", o, h, k) for o in range(len(self.p.objs)) for h in range(2) for k in (1, 2)]
         return out
 
     def var(self, fr, ty):
@@ -605,9 +646,13 @@ class StoreGen:
         elif k < 0.75 and self.p.globals:
             i = r.randrange(len(self.p.globals))
             ty, T = self.p.globals[i][1], ("g", i)
-        else:
+        elif k < 0.88:
             T = ("h", r.randrange(len(self.p.objs)), r.randrange(len(HDRS)))
             self._c("stmt:set-header")
+            return ("set", T, "=", self.rhs_for(fr, "S", "=", header=True))
+        else:
+            T = ("f", r.randrange(len(self.p.objs)), r.randrange(2), r.choice([1, 2]))
+            self._c("dim:field:set")
             return ("set", T, "=", self.rhs_for(fr, "S", "=", header=True))
         ops = {"I": ["=", "=", "+=", "-="], "F": ["="], "S": ["="], "B": ["=", "=", "||=", "&&="], "R": ["=", "=", "+="]}[ty]
         op = r.choice(ops)
@@ -656,8 +701,16 @@ class StoreGen:
             self._c("stmt:log")
             return ("log", self.expr(fr, r.choice(["S", "S", "I", "B", "R"]), 1))
         if k < 0.63:
+            if r.random() < 0.35:
+                self._c("dim:field:unset")
+                return ("unset", ("f", r.randrange(len(self.p.objs)), r.randrange(2), r.choice([1, 2])))
             self._c("stmt:unset")
             return ("unset", ("h", r.randrange(len(self.p.objs)), r.randrange(len(HDRS))))
+        if k < 0.70 and d < 2:
+            return self.switch_stmt(fr, d)
+        if k < 0.715 and fr["ret"] is None and (d > 0 or r.random() < 0.3):
+            self._c("dim:return-state")
+            return ("retstate", r.randrange(len(STATES)))
         if k < 0.78:
             procs = [f for f in fr["callable"]]
             if procs:
@@ -691,6 +744,42 @@ class StoreGen:
             self._c("stmt:return-value")
             return ("ret", self.expr(fr, fr["ret"], 1))
         return self.set_stmt(fr)
+
+    def switch_stmt(self, fr, d):
+        r = self.r
+        self._c("dim:switch")
+        ty = r.choice(["S", "S", "I", "B"])
+        ctl = self.var(fr, ty) or self.lit("S")
+        if ty == "S" and r.random() < 0.2:
+            ctl = ("bi", r.choice([1, 2]), [ctl])
+        n = r.randint(2, 4)
+        dflt = r.choice([None, n - 1, r.randrange(n)])
+        lits = r.sample([w for w in WORDS if w] + [b"0", b"1", b"5", b"42", b"100"], n)
+        cases = []
+        seen = set()
+        for i in range(n):
+            t = None
+            if i != dflt and r.random() < 0.3:
+                w = r.choice([w for w in WORDS if w])
+                t = ("re", ("pre", bytes(c for c in w[: r.randint(1, 2)] if chr(c).isalnum()) or b"a") if r.random() < 0.6 else ("spl", ord(r.choice("-="))))
+                if t in seen:
+                    t = None                  # the parser rejects a duplicate case label
+                seen.add(t)
+            if i == dflt:
+                t = None
+            elif t is not None:
+                self._c("dim:switch:regex-case")
+            else:
+                t = ("str", lits[i])
+            ft = i < n - 1 and r.random() < 0.3
+            if ft:
+                self._c("dim:switch:fallthrough")
+            body = self.stmts(fr, r.randint(0, 2), d + 1)
+            if r.random() < 0.1:
+                body.insert(r.randrange(len(body) + 1), ("nop", "break"))     # a break in the middle does not break
+            body.append(("nop", "fallthrough" if ft else "break"))
+            cases.append((t, ft, body))
+        return ("switch", ctl, dflt, cases)
 
     def fresh_local(self):
         self.nlocal += 1
@@ -728,10 +817,20 @@ class StoreGen:
         p.globals = list(SCOPES[p.scope]["globals"])
         p.objs = list(SCOPES[p.scope]["objs"])
         if self.wild:
-            p.extra_pool = ["%s.http.%s:%s" % (o, h, f) for o in p.objs for h in HDRS[:2] for f in FIELDS]
-            p.extra_pool += ["req.url", "req.url.path", "req.url.qs", "req.method"]
+            p.extra_pool = ["req.url", "req.url.path", "req.url.qs", "req.method"]
         self.nlocal = 0
         callable_ = []
+        can_state = set()
+
+        def states(ss):
+            for st in ss:
+                if st[0] == "retstate" or (st[0] == "call" and st[1] in can_state):
+                    return True
+                if st[0] == "if" and (states(st[2]) or any(states(b) for _, b in st[3]) or (st[4] is not None and states(st[4]))):
+                    return True
+                if st[0] == "switch" and any(states(b) for _, _, b in st[3]):
+                    return True
+            return False
         for fid in range(r.choice([0, 1, 2, 2, 3])):
             if self.wild:
                 npar = r.choice([1, 1, 2, 2, 3]) if self.focus else r.choice([0, 1, 1, 2])
@@ -744,7 +843,9 @@ class StoreGen:
             else:
                 params = [(self.fresh_local(), r.choice("IFSBR" if r.random() < 0.5 else "IS")) for _ in range(r.choice([0, 1, 1, 2]))]
                 ret = r.choice([None, None, "I", "S", "B", "R", "F"])
-            fr, body = self.frame(fid, params, ret, list(callable_))
+            # a state returned inside a functional subroutine turns its value into value.Null (not modelled):
+            # functions only call subroutines that cannot return a state
+            fr, body = self.frame(fid, params, ret, [c for c in callable_ if ret is None or c[0] not in can_state])
             if self.wild:
                 # the callee assigns to its parameters: by-value passing is what is being observed
                 for k, t in params:
@@ -755,7 +856,13 @@ class StoreGen:
             body += self.stmts(fr, r.randint(1, 5))
             if ret is not None:
                 body.append(("ret", self.expr(fr, ret, 1)))
+            elif r.random() < 0.2:
+                # the state travels through every caller: what follows the call must not run
+                body.append(("retstate", r.randrange(len(STATES))))
+                self._c("dim:return-state")
             p.subs.append((fid, params, ret, body))
+            if states(body):
+                can_state.add(fid)
             callable_.append((fid, params, ret))
             self._c("sub:function" if ret else "sub:procedure")
         fr, body = self.frame("main", [], None, callable_)
